@@ -1604,11 +1604,31 @@ func (p *Posix) CompleteMultipartUpload(ctx context.Context, input *s3.CompleteM
 
 	d, err := os.Stat(objname)
 
-	// if the versioninng is enabled first create the file object version
-	if p.versioningEnabled() && vEnabled && err == nil && !d.IsDir() {
-		_, err := p.createObjVersion(bucket, object, d.Size(), acct)
+	// if the versioninng is enabled first create the file object version.
+	// With suspended versioning the object being replaced is archived as
+	// well when it carries a version id of its own (as PutObject does);
+	// only a null version is replaced in place.
+	if p.versioningEnabled() && vStatus != "" && err == nil && !d.IsDir() {
+		var isVersionIdMissing bool
+		if p.isBucketVersioningSuspended(vStatus) {
+			vIdBytes, err := p.meta.RetrieveAttribute(nil, bucket, object, versionIdKey)
+			if err != nil && !errors.Is(err, meta.ErrNoSuchKey) {
+				return nil, fmt.Errorf("get object versionId: %w", err)
+			}
+			isVersionIdMissing = len(vIdBytes) == 0
+		}
+		if !isVersionIdMissing {
+			_, err := p.createObjVersion(bucket, object, d.Size(), acct)
+			if err != nil {
+				return nil, fmt.Errorf("create object version: %w", err)
+			}
+		}
+	}
+	if p.versioningEnabled() && p.isBucketVersioningSuspended(vStatus) {
+		// the new object is the null version: it replaces an archived one
+		err = p.deleteNullVersionIdObject(bucket, object)
 		if err != nil {
-			return nil, fmt.Errorf("create object version: %w", err)
+			return nil, err
 		}
 	}
 
